@@ -130,7 +130,7 @@ func (prog *Progress) get(n datamodel.Node, p datamodel.Path, trackProgress bool
 			// Put together the context info we'll offer to the loader and prototypeChooser.
 			lnkCtx := linking.LinkContext{
 				Ctx:        prog.Cfg.Ctx,
-				LinkPath:   p.Truncate(i),
+				LinkPath:   p.Truncate(i + 1),
 				LinkNode:   n,
 				ParentNode: prev,
 			}
